@@ -489,9 +489,11 @@ public:
       dbKeyID = DBKeyID(sqlite3_column_int64(fastFindRuleResultStmt, 0));
       int numValueBytes = sqlite3_column_bytes(fastFindRuleResultStmt, 1);
       result_out->value.resize(numValueBytes);
-      memcpy(result_out->value.data(),
-             sqlite3_column_blob(fastFindRuleResultStmt, 1),
-             numValueBytes);
+      // An empty value has no storage on either side (memcpy requires non-null).
+      if (numValueBytes > 0)
+        memcpy(result_out->value.data(),
+               sqlite3_column_blob(fastFindRuleResultStmt, 1),
+               numValueBytes);
       result_out->builtAt = sqlite3_column_int64(fastFindRuleResultStmt, 2);
       result_out->computedAt = sqlite3_column_int64(fastFindRuleResultStmt, 3);
       result_out->start = sqlite3_column_double(fastFindRuleResultStmt, 4);
@@ -530,9 +532,11 @@ public:
       dbKeyID = DBKeyID(sqlite3_column_int64(findRuleResultStmt, 0));
       int numValueBytes = sqlite3_column_bytes(findRuleResultStmt, 1);
       result_out->value.resize(numValueBytes);
-      memcpy(result_out->value.data(),
-             sqlite3_column_blob(findRuleResultStmt, 1),
-             numValueBytes);
+      // An empty value has no storage on either side (memcpy requires non-null).
+      if (numValueBytes > 0)
+        memcpy(result_out->value.data(),
+               sqlite3_column_blob(findRuleResultStmt, 1),
+               numValueBytes);
       result_out->builtAt = sqlite3_column_int64(findRuleResultStmt, 2);
       result_out->computedAt = sqlite3_column_int64(findRuleResultStmt, 3);
       result_out->start = sqlite3_column_double(findRuleResultStmt, 4);
@@ -761,9 +765,11 @@ public:
       Result result;
       int numValueBytes = sqlite3_column_bytes(stmt, 2);
       result.value.resize(numValueBytes);
-      memcpy(result.value.data(),
-             sqlite3_column_blob(stmt, 2),
-             numValueBytes);
+      // An empty value has no storage on either side (memcpy requires non-null).
+      if (numValueBytes > 0)
+        memcpy(result.value.data(),
+               sqlite3_column_blob(stmt, 2),
+               numValueBytes);
       result.builtAt = sqlite3_column_int64(stmt, 3);
       result.computedAt = sqlite3_column_int64(stmt, 4);
       result.start = sqlite3_column_double(stmt, 5);
